@@ -10,7 +10,7 @@
 
    [target b a] is the sign with address [a] on bus [b] (C08_target_def). *)
 From Flipdot Require Import Tactics.
-From Flipdot Require Import Base Message Page SignType VSign Controller VSignP ClosedLoopP.
+From Flipdot Require Import Base Message Page SignType VSign Controller Bitmap VSignP ClosedLoopP ApiP.
 Local Open Scope N_scope.
 
 (* ---------------------------------------------------------------------------------------- *)
@@ -299,3 +299,55 @@ Theorem C08_end_to_end : forall b a t ps,
     /\ Forall VInv0 b2 /\ map v_addr b2 = map v_addr b.
 Proof. exact closed_end_to_end. Qed.
 Print Assumptions C08_end_to_end.
+
+(* ---------------------------------------------------------------------------------------- *)
+(* The whole user-level path.  Pages are made with Sign::create_page (a blank page of the sign type's
+   size with the given id), drawn on with ANY sequence of set-pixel / set-all operations (spec/Bitmap.v;
+   an out-of-bounds operation panics in Rust and leaves the page untouched here), and sent after
+   configure: the sign stores exactly those pages, in order, and every stored page carries its id and
+   shows exactly the picture the operations describe -- for every sign type, every prior state of the
+   bus satisfying the invariant, every number of pages within the 16-bit chunk counter. *)
+
+Theorem C08_def_create_page : forall t id,
+  create_page t id = page_new id (fst (dimensions t)) (snd (dimensions t))
+  /\ sign_width t = fst (dimensions t) /\ sign_height t = snd (dimensions t).
+Proof. intros t id. repeat split. Qed.
+Print Assumptions C08_def_create_page.
+
+Theorem C08_def_drawn_picture : forall t id ops,
+  drawn t (id, ops) = fold_left page_apply ops (create_page t id)
+  /\ picture t ops = fold_left (bm_apply (sign_width t) (sign_height t)) ops (fun _ _ => false).
+Proof. intros t id ops. split; reflexivity. Qed.
+Print Assumptions C08_def_drawn_picture.
+
+Theorem C08_api_pages_end_to_end : forall b a t (specs : list (N * list pop)),
+  NoDup (map v_addr b) -> Forall VInv0 b -> In a (map v_addr b) ->
+  Forall (fun s => fst s < 256) specs ->
+  N.of_nat (length specs) * (total_bytes (sign_width t) (sign_height t) / 16) < 65536 ->
+  exists b1 b2 s2 fs,
+    run_bus (configure a t) b = (b1, Done tt)
+    /\ run_bus (send_pages a (map (drawn t) specs)) b1 = (b2, Done fs)
+    /\ target b2 a = Some s2 /\ v_type s2 = Some t /\ fs = v_style s2
+    /\ v_state s2 = match fs with Manual => PageLoaded | Automatic => ShowingPages end
+    /\ v_pages s2 = map (drawn t) specs
+    /\ Forall2 (fun spec p =>
+                  page_id p = Some (fst spec)
+                  /\ forall x y, x < sign_width t -> y < sign_height t ->
+                       get_pixel p x y = Some (picture t (snd spec) x y))
+               specs (v_pages s2).
+Proof. exact api_pages_end_to_end. Qed.
+Print Assumptions C08_api_pages_end_to_end.
+
+(* Evaluated: a 30x7 dash sign, one page with two pixels set and one cleared again, from the
+   half-finished prior state of the first example. *)
+Example C08_ex_api :
+  (let spec := (7, [PSet 0 0 true; PSet 29 6 true; PSet 0 0 false; PSet 3 2 true]) in
+   let (b1, _) := run_bus (configure 5 Max3000Dash30x7) C08_ex_bus in
+   let (b2, o2) := run_bus (send_pages 5 [drawn Max3000Dash30x7 spec]) b1 in
+   (o2, match target b2 5 with
+        | Some s => map (fun p => (page_id p, get_pixel p 0 0, get_pixel p 29 6, get_pixel p 3 2, get_pixel p 4 2))
+                        (v_pages s)
+        | None => []
+        end))
+  = (Done Manual, [(Some 7, Some false, Some true, Some true, Some false)]).
+Proof. vm_compute. reflexivity. Qed.
